@@ -19,3 +19,10 @@ def d18(cls, w):
     """C19: distinct (stream id, module, test) results whose CF-safe column names coincide."""
     return cls in ("C19:result-column-values", "C19:result-column-missing", "C19:result-column-ambiguous") and bool(
         w.get("colliding_results"))
+
+
+@predicate("D19")
+def d19(cls, w):
+    """C07: bare stream mapping whose tests all have null parameters is taken for a module mapping."""
+    return (cls.startswith("C07:bare-streams:") and cls.endswith(":call-set-differs") and w.get("all_params_null") is True
+            and w.get("n_observed") == 0)
